@@ -1,21 +1,18 @@
-"""debug helpers: split a history term into its steps"""
+"""debug helpers: split a history term into its local definitions and its steps"""
 def split_history(line):
-    # strip leading let-definitions
     i = 0
     defs = []
     while line.startswith("let ", i):
-        j = line.index(" in ", i)
-        # a let body may contain ' in ' only at top level after the closing bracket
-        depth = 0; k = i
+        depth = 0; k = i + 4
         while True:
             c = line[k]
-            if c in "[(": depth += 1
-            elif c in "])": depth -= 1
-            if depth == 0 and line.startswith("] in", k): break
+            if c in "[({": depth += 1
+            elif c in "])}": depth -= 1
+            elif depth == 0 and line.startswith(" in ", k): break
             k += 1
-        defs.append(line[i:k+4]); i = k + 5
+        defs.append(line[i:k + 3]); i = k + 4
     body = line[i:].strip()
-    assert body[0] == "[" and body[-1] == "]"
+    assert body[0] == "[" and body[-1] == "]", body[:80]
     steps = []; depth = 0; cur = []
     for c in body[1:-1]:
         if c in "[({": depth += 1
